@@ -123,6 +123,38 @@ Proof.
   - destruct pinned_assigned_object_not_live as [-> ->]. vm_compute. discriminate.
 Qed.
 
+(* history 3 (request.py:1122-1123 before fixes/C01-4): the environ is copied with a primed cache_control cache; the
+   view fetched over the copy is the ORIGINAL's object, so the write does not land in the copy *)
+Definition copied_environ_reuses_object : list (op str str) :=
+  [ OEnvSet _ _ K_CC (lit "no-cache");
+    ORead _ _ 0 GCC;
+    OCopyEnv _ _;
+    OCCMut _ _ Fresh (lit "max-age=10, no-cache") ].
+
+Lemma before_copy_fix_witness :
+  let s := i_run before_copy_fix copied_environ_reuses_object (init str blank_env) in
+  i_obsA before_copy_fix GCC 0 s = VStr (lit "max-age=10, no-cache") /\
+  i_obsF before_copy_fix GCC s = VStr (lit "no-cache") /\
+  env_get K_CC (env s) = Some (EStr (lit "no-cache")).
+Proof. repeat split; vm_compute; reflexivity. Qed.
+
+Lemma before_copy_fix_refuted :
+  exists ops, Forall (wf_op str str) ops /\
+    i_obsA before_copy_fix GCC 0 (i_run before_copy_fix ops (init str blank_env))
+    <> i_obsF before_copy_fix GCC (i_run before_copy_fix ops (init str blank_env)).
+Proof.
+  exists copied_environ_reuses_object. split.
+  - repeat constructor.
+  - destruct before_copy_fix_witness as [-> [-> _]]. vm_compute. discriminate.
+Qed.
+
+Lemma repaired_on_copy :
+  let s := i_run repaired copied_environ_reuses_object (init str blank_env) in
+  i_obsA repaired GCC 0 s = VStr (lit "max-age=10, no-cache") /\
+  i_obsF repaired GCC s = VStr (lit "max-age=10, no-cache") /\
+  env_get K_CC (env s) = Some (EStr (lit "max-age=10, no-cache")).
+Proof. repeat split; vm_compute; reflexivity. Qed.
+
 (* the same histories on the repaired code: both wrappers report the header that is in the environ *)
 Lemma repaired_on_witnesses :
   i_obsA repaired GCC 0 (i_run repaired stale_after_update (init str blank_env)) = VStr (lit "max-age=5") /\
